@@ -12,7 +12,7 @@ namespace CopVerif.Model.Vine
 def TypeInv (vt : VType) (first : Bool) (t : Tree) : Prop :=
   match vt with
   | .center => IsStar (t.map (Edge.ends first))
-  | .direct => IsPath (t.map (Edge.ends first))
+  | .direct => IsPath (t.map (Edge.ends first)) ∧ DShape first t
   | .regular => True
 
 section
@@ -48,8 +48,8 @@ theorem buildFirst_spec {vt : VType} {d : Nat} {c : Choice α} {t : Tree} {ts : 
     split at h
     · rename_i l r hp
       obtain ⟨hsq, hcol, hab⟩ := hc rfl
-      obtain ⟨h2, h3, h4, h5, _⟩ := directFirst_spec hd hsq hcol hab h
-      exact ⟨h2, h3, h4, h5⟩
+      obtain ⟨h2, h3, h4, h5, h6, _⟩ := directFirst_spec hd hsq hcol hab h
+      exact ⟨h2, h3, h4, h5, h6⟩
     · simp at h
   | regular =>
     obtain ⟨h2, h3, h4, _⟩ := primFirst_spec (by omega) h
@@ -69,9 +69,9 @@ theorem buildKth_spec {vt : VType} {k n : Nat} {pp : Option Tree} {prev : Tree} 
     obtain ⟨e, he, rfl⟩ := List.mem_map.mp hp
     exact h4 e he
   | direct =>
-    obtain ⟨v, hv⟩ := hty
-    obtain ⟨h1, h2, h3, h4⟩ := directKth_spec hn hlen (consecShare_of_walks hv) h
-    exact ⟨h1, h2, h3, 0, h4⟩
+    obtain ⟨⟨v, hv⟩, _⟩ := hty
+    obtain ⟨h1, h2, h3, h4, h5⟩ := directKth_spec hn hlen (consecShare_of_walks hv) h
+    exact ⟨h1, h2, h3, ⟨0, h4⟩, h5⟩
   | regular =>
     obtain ⟨h1, h2, h3, _⟩ := primKth_spec (by omega) hinv hlen h
     exact ⟨h1, h2, h3, trivial⟩
